@@ -2130,11 +2130,24 @@ RULE = ('exhaustive over order-types: every pair of non-decreasing key sequences
         'positions, left key = right key. h5py.Group arguments. Indexed-string payloads with multi-byte characters and '
         'entries of 255/256/257+ bytes. ops.DEFAULT_CHUNKSIZE is set to the case\'s chunk size together with the wrapped '
         'chunksize defaults. CHANGE-DIRECTED: small integer literals new in the tree under test become chunk sizes, column '
-        'lengths, run lengths and payload counts; a changed source file adds 1500 (thorough 6000) random typed cases.')
+        'lengths, run lengths and payload counts; a changed source file adds 1500 (thorough 6000) random typed cases. '
+        'SCALAR TYPE FORMS: the (truthful) uniqueness hints as Python bool / numpy bool / np.all(...) result / Python int / '
+        'numpy int64 / numpy uint8 / 0-d boolean array — every ordered pair of (left form, right form) x the 10 argument forms '
+        'of ordered_merge_left/right (streamed at chunk sizes 1, 2, default + 7 in-memory) and x the 4 forms of '
+        'ordered_merge_inner x truthful flag values on key pairs with duplicates, the forms rotating over the exhaustive key '
+        'pairs (length <= 4), rejected hints in every form, typed / HDF5 / h5py.Group / history variants; chunk sizes as '
+        'np.int64 / np.int32 / np.intp; invalid markers of the kernels as Python ints. MIXED KEY DTYPES: the two key columns in '
+        'different integer dtypes (quick: 8 ordered pairs, 16 when a source changed; thorough: all 56) holding values outside '
+        'the other side\'s range that collide with a key there under a cast (c + s*2^w, c in {-1,1,2,7}: wrap-around at '
+        '8/16/32/64 bits, sign reinterpretation) through ordered_merge_left/right (10 forms), ordered_merge_inner (4 forms), '
+        'merge_left/right/inner and get_index.')
 EXHAUSTIVE = {'quick': True, 'thorough': True}
 TRUSTED = ['numba code generation; numpy fancy indexing / boolean masks; MemoryField write / write_part (modelled as append)',
            'key columns: the model joins the key SYMBOLS, the real call their image under a strictly increasing map into the key '
-           'dtype (the kernels only compare keys); payload values are integers / IEEE bit patterns on both sides',
+           'dtype (the kernels only compare keys); payload values are integers / IEEE bit patterns on both sides; with mixed '
+           'key dtypes the two sides are images of ONE strictly increasing map into the integers, each stored in its own dtype',
+           'the type form of a hint (numpy bool, integer ...) is modelled by Model/FlagForm.v (py_eq_False / py_is_False as '
+           'Python and numpy define == and `is` on these objects); the model entry receives the form on the wire',
            'pandas.merge(how=left) = rows of the relational left join in order, pandas.merge(how=inner) = some permutation of '
            'the matching pairs — explicit premises of the merge_* theorems, exercised here on every generated key pair',
            'Python dict semantics in get_index (modelled as an association list, newest binding first)',
@@ -2145,13 +2158,19 @@ ASSUMPTIONS = ['ordered_* forms: keys sorted ascending, uniqueness flags truthfu
                'a sink has the dtype of its source, or is an integer sink wide enough for every value of an integer/bool source '
                '(conversions from/to floating point and narrowing are not modelled and not generated); ndarray sinks have the '
                'source dtype (numba cannot compile map_valid for two different array types: observation O-C19f)',
-               'key columns of both sides have the same dtype; float keys are not NaN',
+               'key columns of both sides have the same dtype or two (different) integer dtypes; an integer key column against a '
+               'floating-point one is not generated (what equality means beyond 2^53 is not stated); float keys are not NaN',
+               'uniqueness hints are values that are == True or == False (bool, numpy bool, 0/1 integers, 0-d boolean array); '
+               'None, strings and other objects are not generated',
                'ndarray destination arrays are zero-initialised by the caller',
                'streamed form: no run of equal left keys as long as the chunk size (2^20 in production) — otherwise the documented ValueError',
                'fewer than 2^62 rows (INVALID_INDEX is not a row number); payload columns have the length of their key column']
 TECHNIQUE = ('Coq proof (faithful model of the kernels, Session plumbing and — reused from C03/C04 — the streamed generators '
              '= relational join + payload mapping) + exhaustive small-scope differential correspondence against the repository')
-LEVEL_TEXT = ('6 theorems in coq/Props/C19_typed.v about coq/Model/SessionMergeTyped.v (element types: every payload of a '
+LEVEL_TEXT = ('7 theorems in coq/Props/C19_flags.v about coq/Model/FlagForm.v (the type form of the uniqueness hints: a hint compared '
+              'by value is its truth value in every form, so ordered_merge_left/right/inner with numpy-bool / integer hints ARE the '
+              'calls with Python bools; the identity test `is False` is refuted — F-C19g, ordered_merge_inner as found); '
+              '6 theorems in coq/Props/C19_typed.v about coq/Model/SessionMergeTyped.v (element types: every payload of a '
               'call is mapped on its own, in the dtype its argument form prescribes, whatever the other payloads, sinks and '
               'earlier calls: ordered_merge_left_typed_inmemory_correct / _streamed_correct / _payloads_independent, '
               'session_history_call_alone) and '
@@ -2165,4 +2184,5 @@ LEVEL_TEXT = ('6 theorems in coq/Props/C19_typed.v about coq/Model/SessionMergeT
               'the real Session methods and kernels (~6.5e4 cases per quick run, 2 modes).')
 LEVEL_NOTE = ('Trusted: Coq kernel, extraction, harness, numba/numpy/pandas. pandas.merge is a Section hypothesis. '
               'Session.ordered_merge_left is modelled as repaired by work/C19/fix-F-C19a.diff and fix-F-C19c.diff; the '
-              'deprecated *_old helpers are modelled as found (defective, no longer called by Session).')
+              'deprecated *_old helpers are modelled as found (defective, no longer called by Session). '
+              'Session.ordered_merge_inner is modelled as repaired by work/TC19/fix-F-C19g.diff (hints compared by value).')
